@@ -8,6 +8,8 @@ import (
 	"github.com/antlr/antlr4/runtime/Go/antlr"
 	"github.com/cornelk/hashmap"
 	"github.com/sirupsen/logrus"
+
+	"github.com/anz-bank/sysl/pkg/verifhook"
 )
 
 //nolint:gochecknoglobals
@@ -137,6 +139,7 @@ func trimText(l *SyslLexer) string {
 }
 
 func getNextToken(l *SyslLexer) antlr.Token {
+	verifhook.Yield("tok", "")
 	ls := ls(l)
 	if len(ls.prevToken) > 0 {
 		// poll, retrieve head
